@@ -559,11 +559,17 @@ String String::concat(const char* b, int n) const
 
 void String::append(const char* b, int n)
 {
+	// b may point into this string (s += s, s += *s + k): growing can move or free the buffer it refers to
+	const char* s0 = str();
+	bool own = b >= s0 && b <= s0 + _len;
+	int offset = own ? int(b - s0) : 0;
 	if(_len+n >= _size)
 		resize(_len+n);
 	else
 		_len += n;
 	char* s = str();
+	if (own)
+		b = s + offset;
 	memcpy(s+_len-n, b, n);
 	s[_len] = '\0';
 }
